@@ -332,6 +332,8 @@ func behCoq(b string) string {
 	switch b {
 	case "modify":
 		return "BModify"
+	case "strip":
+		return "BStrip"
 	case "ignored":
 		return "BIgnored"
 	case "nilfactory":
@@ -398,6 +400,8 @@ func factory(name string) func(map[string]interface{}) func(interface{}) (interf
 			switch b {
 			case "modify":
 				return withTag(in, fmt.Sprintf("%s:%d", st.lv, pos)), nil
+			case "strip":
+				return stripped(in), nil
 			case "fail":
 				return nil, modErr{st.lv, pos}
 			case "fail-same":
